@@ -1,5 +1,6 @@
 import ast
 """C07 - wavefront views agree with each other; planes act as pointwise phasors."""
+from ..resilient import run_nested as _run_nested
 from .. import nf, dims
 from ..nf import Poly, Tup, Const, Slice, NONE, TRUE, FALSE
 from ..model import AnalysisError
@@ -97,7 +98,7 @@ def run(chk, repo, tier):
     # are sampled at on both axes, and the window the phasor is cut to follows the new mask
     from . import c17 as _c17
     nd = list(chk.not_decided)
-    _c17.run(_Remap(chk, {'C17-a': 'C07-g', 'C17-d': 'C07-d'}), repo, tier)
+    _run_nested(_c17, _Remap(chk, {'C17-a': 'C07-g', 'C17-d': 'C07-d'}), repo, tier)
     chk.not_decided[:] = nd
     chk.not_decided += ['numerical values of the field']
 
@@ -117,6 +118,12 @@ def run(chk, repo, tier):
     # sums them coherently) is the extent arithmetic
     from .extent_rules import extent_identities
     extent_identities(chk, repo, 'C07-i')
+    # the bounding box a group of fields is merged into folds every extent with running minima / maxima (an interval that
+    # extends the box on both sides moves both ends), and the complex / intensity views place every field through insert
+    from .c06 import boundary_fold as _boundary_fold
+    _boundary_fold(chk, repo, 'C07-a')
+    from .c02 import field_accumulation as _field_accumulation
+    _field_accumulation(_Remap(chk, {'C02-g': 'C07-o'}), repo, 'C02-g')
     # intensity and accumulation go through reduce -> _merge: the merged block sits where the floor(n/2) convention of
     # array_extent / insert puts it
     from .c06 import merge_helper_rules as _merge_helper_rules
